@@ -4,6 +4,7 @@ package c11
 
 import (
 	"fmt"
+	"strings"
 	"sync/atomic"
 	"testing"
 
@@ -88,6 +89,9 @@ func TestC11Recrash(t *testing.T) {
 			}
 			pickedKinds[kinds], pickedKinds[fmt.Sprint(i)] = true, true
 			done++
+			for _, x := range strings.Split(kinds, "+") {
+				m.Eval("content:zone-append-block-carries:"+x, fmt.Sprint(i))
+			}
 			sc := &scen{m: m, base: base, pre: &memWorld{imgs[i]}, oldHeads: []string{mined[i].Hash.Hex()}, next: mined[i+2], zoneOnly: true,
 				act: xact{name: fmt.Sprintf("append-order2/%s/block%d", kinds, i+1), kind: "append-order2", body: stepwise([]*hnet.Mined{b}), blocks: []*hnet.Mined{b}}}
 			jobs = append(jobs, func() { sc.double(nil, nil) })
@@ -153,5 +157,6 @@ func TestC11Recrash(t *testing.T) {
 			break
 		}
 	}
+	m.Need("content:zone-append-block-carries:qi")
 	m.Floor(int64(m.N(800, 4000)), m.N(80, 150))
 }
